@@ -1547,3 +1547,30 @@ def rule_deepcopy_memo(ctx):
                           "(one array behind two curves) is lost in the copy" % (unparse(c), fi.qual, memo))
     if n == 0:
         ctx.undecided("PK.MEMO", "lasio#deepcopy-memo", None, 0, "no __deepcopy__ with nested copy.deepcopy calls")
+
+
+def rule_setattr_exclusive(ctx):
+    """SI.SETATTR-EXCLUSIVE: `section.KEY = value` for an existing key is item assignment and nothing else.  If the path that stores
+    through `self[key] = value` can go on to `super().__setattr__(key, value)`, the value also becomes an instance attribute that
+    shadows the item: `section.KEY` then returns the plain value while `section["KEY"]` returns the item."""
+    p = ctx.p
+    fi = p.func(SI + ".__setattr__")
+    cfg = build_cfg(p, fi)
+    key = fi.params()[1]
+    stores = [n_.id for n_ in cfg.nodes if n_.kind == "stmt" and isinstance(n_.ast, ast.Assign) and any(
+        isinstance(t, ast.Subscript) and isinstance(t.value, ast.Name) and t.value.id == "self" for t in n_.ast.targets)]
+    stores += [n_.id for n_ in cfg.nodes if n_.ast is not None and n_.kind == "stmt" and any(
+        isinstance(c, ast.Call) and isinstance(c.func, ast.Attribute) and c.func.attr in ("set_item", "set_item_value", "__setitem__")
+        and isinstance(c.func.value, ast.Name) and c.func.value.id == "self" for c in walk_expr_shallow(n_.ast))]
+    supers = [n_.id for n_ in cfg.nodes if n_.ast is not None and n_.kind == "stmt" and any(
+        isinstance(c, ast.Call) and _is_super_call(c, "__setattr__") for c in walk_expr_shallow(n_.ast))]
+    site = fi.qual + "#item-or-attribute"
+    if not stores or not supers:
+        ctx.undecided("SI.SETATTR-EXCLUSIVE", site, fi, fi.node, "__setattr__ has no `self[key] = value` store or no super().__setattr__ call")
+        return
+    pth = None
+    for s_ in stores:
+        pth = pth or cfg.find_path(s_, supers, skip_labels=EXC)
+    ctx.check(pth is None, "SI.SETATTR-EXCLUSIVE", site, fi, fi.node, "after the item store __setattr__ returns (no instance attribute is created)",
+              "after `self[%s] = value` the method can still reach super().__setattr__: the plain value also becomes an instance attribute "
+              "that hides the item from attribute access" % key, cfg.describe_path(pth) if pth else None)
